@@ -334,13 +334,31 @@ impl References {
         }
         let plan_a = Plan::solo(p, 0x0123_4567_89ab_cdef ^ key, 1_790_000_000);
         let plan_b = Plan::solo(p, 0xfedc_ba98_7654_3210 ^ key.rotate_left(13), 17);
+        // the second solo session runs the macro as built WITH debug assertions (and overflow
+        // checks) when that flavour of the simulator exists: what `cargo build` vs
+        // `cargo build --release` of a consumer means for a proc-macro
+        let exe_b = alt_flavour(exe);
         let a = solo_outcome(&exec_plan(exe, &plan_a, scratch, full)?)?;
-        let b = solo_outcome(&exec_plan(exe, &plan_b, scratch, full)?)?;
+        let b = solo_outcome(&exec_plan(exe_b.as_deref().unwrap_or(exe), &plan_b, scratch, full)?)?;
         if !a.same_output(&b) {
             return Ok(RefResult::Disagree(plan_a, a, plan_b, b));
         }
         self.map.lock().unwrap().insert(key, a.clone());
         Ok(RefResult::Ok(a))
+    }
+}
+
+/// `<verif>/target/sessim-dbg/release/sessim` next to `<verif>/target/sessim/release/sessim`.
+pub fn alt_flavour(exe: &Path) -> Option<PathBuf> {
+    let s = exe.display().to_string();
+    if !s.contains("/target/sessim/") {
+        return None;
+    }
+    let alt = PathBuf::from(s.replacen("/target/sessim/", "/target/sessim-dbg/", 1));
+    if alt.is_file() {
+        Some(alt)
+    } else {
+        None
     }
 }
 
